@@ -295,6 +295,11 @@ func main() {
 			})
 		}
 		if pi == 0 {
+			// regression corpus: the witnesses of the repaired defects D09a, D09b, D09c
+			for k := 0; k < 9; k++ {
+				k := k
+				plan = append(plan, func() scenario { return g.fixedWitness(k) })
+			}
 			// fixed corpus on the first process: every malformed body, every batch size boundary
 			for i := 0; i < 28; i++ {
 				i := i
